@@ -388,13 +388,12 @@ def tail_protocol(ctx, rr):
     if ok:
         for x in (flagged[0], tails[0].value):
             facts = gf.facts_at(x)
-            cond = [f for f in facts if f[0] == 'F' and f[1].replace(' ', '') == 'len(stem)<=LRU_TRIE_STEM_SIZE'] + \
-                   [f for f in facts if f[0] == 'T' and f[1].replace(' ', '') == 'len(stem)>LRU_TRIE_STEM_SIZE']
-            ok = ok and bool(cond)
-        ok = ok and ast.unparse(tails[0].value).replace(' ', '') == 'stem[LRU_TRIE_STEM_SIZE:]'
+            from ..guards import holds_cmp
+            ok = ok and holds_cmp(facts, 'len(%s)' % ss.call_params[0], '>', 'LRU_TRIE_STEM_SIZE')
+        ok = ok and ast.unparse(tails[0].value).replace(' ', '') == '%s[LRU_TRIE_STEM_SIZE:]' % ss.call_params[0]
         heads = [a for a in P.own(ss, ast.Assign) if any(isinstance(t, ast.Subscript) and ast.unparse(t.value) == 'self.data' for t in a.targets)]
         hv = {ast.unparse(a.value).replace(' ', '') for a in heads}
-        ok = ok and hv == {'stem', 'stem[:LRU_TRIE_STEM_SIZE]'}
+        ok = ok and hv == {ss.call_params[0], '%s[:LRU_TRIE_STEM_SIZE]' % ss.call_params[0]}
     rr.ob(ctx.where(ss), 'set_stem: has-tail flag and tail remainder are set exactly when the stem exceeds the block payload; head keeps the first payload bytes', ok=ok)
     if not ok:
         fail(ss, ss.node, 'set_stem no longer splits the stem into payload-sized head plus tail under the `longer than payload` condition')
